@@ -663,12 +663,17 @@ class StmtMixin:
                 continue      # loop-local temporary (assigned before use inside the body; checked by execution itself)
             if self._visible(s, nm):
                 raise Unsupported('loop contract of %s is incomplete: local %r is used by the loop but not related' % (name, nm))
+        if lc.get('inv'):
+            self.check_clauses(s.fork(), lc['inv'], module, '%s::%s::inv-init' % (self.cur_func_name, name), lc)
         if getattr(self, 'loop_jobs', None) is not None and name not in self.loop_jobs:
             self.loop_jobs[name] = {'state': s.fork(), 'its': its, 'bind': bind, 'body': body, 'module': module, 'lc': lc,
                                     'func_node': self.cur_func_node, 'func_name': self.cur_func_name}
         vals = []
         for vname, tag in lc['vars']:
-            v = self.lookup(s, vname, module) if self._visible(s, vname) else sv_ref(const('py_UNBOUND'))
+            if vname.startswith('='):
+                v = NONE_SV if vname == '=None' else sv_ref(const(vname[1:]))
+            else:
+                v = self.lookup(s, vname, module) if self._visible(s, vname) else sv_ref(const('py_UNBOUND'))
             self.publish(s, v)
             vals.append(v)
         terms = [self.box(s, v) for v in vals] + self.its_terms(s, its)
@@ -678,10 +683,36 @@ class StmtMixin:
         kindt = F('kind', I)     # 0 exhausted, 1 break, 2 return, 3 raise
         outs = []
         is_comp = not isinstance(node, (ast.For, ast.While))
+        impossible = set()
         if is_comp:
-            s.add(z3.Or(kindt == 0, kindt == 3))       # a comprehension can only finish or raise
+            impossible = {1, 2}                         # a comprehension can only finish or raise
+        else:
+            # syntactic exclusion: without a `return` (resp. a `break` belonging to this loop) in the body that outcome cannot occur
+            if not any(isinstance(x, ast.Return) for b in node.body for x in ast.walk(b)):
+                impossible.add(2)
+            def has_break(stmts):
+                for b in stmts:
+                    if isinstance(b, ast.Break):
+                        return True
+                    if isinstance(b, (ast.For, ast.While)):
+                        if has_break(b.orelse):
+                            return True
+                        continue
+                    for fld in ('body', 'orelse', 'finalbody', 'handlers'):
+                        sub = getattr(b, fld, None)
+                        if sub:
+                            if fld == 'handlers':
+                                if any(has_break(h.body) for h in sub):
+                                    return True
+                            elif has_break(sub):
+                                return True
+                return False
+            if not has_break(node.body):
+                impossible.add(1)
+        if impossible:
+            s.add(z3.And(*[kindt != c for c in impossible]))
         for code, label in ((0, 'stop'), (1, 'break'), (2, 'ret'), (3, 'raise')):
-            if is_comp and code in (1, 2):
+            if code in impossible:
                 continue
             s2 = s.fork()
             s2.add(kindt == code)
@@ -689,10 +720,16 @@ class StmtMixin:
                 continue
             s2.tok, s2.arr['li'], s2.arr['dv'], s2.arr['dh'] = F('tok', Tok), F('li', Z.ArrRSeq), F('dv', Z.ArrDV), F('dh', Z.ArrDH)
             for i, (vname, tag) in enumerate(lc['vars']):
-                if vname in lc.get('readonly', ()):
+                if vname in lc.get('readonly', ()) or vname.startswith('='):
                     continue
-                nv = F('var%d' % i, R)
-                self.import_value(s2, nv)
+                if label in ('ret', 'raise'):
+                    # locals are dead on these exits: a side-specific unconstrained value, so that any later use cannot be proved equal
+                    nv = z3.Int('dead_%s_%s_%d' % (getattr(self, 'side', 'x'), name.replace('.', '_'), i))
+                    self.set_var(s2, vname, sv_ref(nv))
+                    continue
+                else:
+                    nv = F('var%d' % i, R)
+                    self.import_value(s2, nv)
                 self.set_var(s2, vname, self.unbox(s2, nv, tag))
             s2.events.append((name, label))
             if label == 'stop':
